@@ -103,6 +103,22 @@ PROPS = {
              "named containers are compared with their reference after every operation. Exploration.",
              "part bytes are computed by the harness; RawBuilder and raw prefixes of different lengths are excluded by design; hash collisions are assumed away",
              "DESIGN §7 (C21)"),
+    "C01": P("hsim", "rapid-drawn schedules over 3..7 real consensus engines (real block managers, real file WAL) with a harness-owned network, timers fired through "
+             "their real closures, Byzantine keys (equivocating votes, two valid blocks, POL re-proposals), a scripted split-lock adversary, crashes with torn "
+             "WAL tails; history invariants: agreement and a >2/3 precommit certificate for every finalized block",
+             "Agreement and the commit certificate are checked after every event of each generated history (deliveries incl. duplicates/reordering/loss, timeouts, "
+             "block-manager completions, Byzantine messages, crash/restart). Exploration: schedules are sampled, not enumerated; deep lock/unlock scenarios are "
+             "reached only through the scripted adversary plus noise; liveness is not examined.",
+             "database durable across engine crashes; block manager object survives an engine restart; hooks consensus/verif_hooks_sim.go expose state, the pending "
+             "timer and message constructors only", "DESIGN §4 (C01)", qt=600, tt=3400),
+    "C02": P("hsim", "same simulator with crash weight x4: crash = Term + truncate every WAL tail file to a drawn cut in [durable size, size] (frame boundary, "
+             "boundary+{1,7,8,9}, interior) or a crash point inside the last handler (after its k-th send, later sends withdrawn), restart on the same logs; "
+             "invariants over the whole message pool",
+             "No correct key ever signs two different votes or proposals for one (type,height,round) anywhere in the pool; every vote/proposal is in the durable part "
+             "of the round WAL at the instant it is handed to the network; no double-sign evidence names a correct validator; restart from any generated torn log "
+             "succeeds. Exploration over sampled schedules and crash points.",
+             "prefix-persistence of appended WAL bytes; database durable; the logical clock advances on every vote (a re-signed vote differs, as with wall-clock time)",
+             "DESIGN §4 (C02)", qt=600, tt=3400),
     "C09": P("hexec", "(i) token-scheduled bodies on NewWorldVirtualState/GetFuture against sequential execution on a plain world state (all reads and the final hash); "
              "(ii) the same generated blocks through real transitions at concurrency 2/4/8 against level 1 and the reference",
              "Lock-level interleavings of random programs (account read/write/idle locks, world read/write locks, reset, retry) must give identical reads, receipts and "
